@@ -88,6 +88,8 @@ mod signals;
 
 #[cfg(cicada_verif)]
 pub mod verif_hooks;
+#[cfg(cicada_verif)]
+mod completers;
 
 /// Represents an error calling `exec`.
 pub use crate::types::CommandResult;
